@@ -27,7 +27,8 @@ MANIFEST = {
     "technique": "preemption-bounded exhaustive interleaving exploration of the real OpenMP kernels under a green-thread "
                  "scheduler (TSan-instrumented build), plus exhaustive per-thread frame-history enumeration",
     "text": "(a) 27 per-frame analysis functions x every ordered selection with repetition of 1..3 of 4 distinct frames (84 "
-            "sequences) on one thread: each frame's result bit-identical to the frame alone. (b) sasa(), "
+            "sequences) on one thread, plus the 20-frame trajectory forwards, reversed and rotated: each frame's result "
+            "bit-identical to the frame alone. (b) sasa(), "
             "_compute_neighborlist(), inplace_center_and_trace_atom_major() built from the tree with -fsanitize=thread "
             "instrumentation and run on ucontext green threads: all schedules with <= 2 (thorough 3) preemptions at "
             "accesses to granules touched by >= 2 threads with a write, all free choices at blocking points, T in {2,3}, "
@@ -44,11 +45,11 @@ MANIFEST = {
 
 # ------------------------------------------------------------------------------------------------ layer (a)
 
-def _frames(repo):
+def _frames(repo, n=4):
     import mdtraj as md
-    t = md.load(os.path.join(repo, "tests/data/2EQQ.pdb"))[:4]
-    t.unitcell_lengths = np.full((4, 3), 6.0) + 0.1 * np.arange(4)[:, None]
-    t.unitcell_angles = np.full((4, 3), 90.0)
+    t = md.load(os.path.join(repo, "tests/data/2EQQ.pdb"))[:n]
+    t.unitcell_lengths = np.full((n, 3), 6.0) + 0.1 * np.arange(n)[:, None]
+    t.unitcell_angles = np.full((n, 3), 90.0)
     return t
 
 
@@ -145,6 +146,21 @@ def history_job(args):
                              % (name, seq[i], i, list(seq)), {"layer": "a", "fn": name, "seq": list(seq)}))
             elif L > 1 and len(set(seq)) > 1:
                 nontrivial += 1
+    # (a2) long trajectories: all 20 models, forwards, backwards and rotated by 7 — results that depend on
+    # trajectory-wide statistics (e.g. a presence filter over all frames) show up only with many frames
+    long = _frames(repo, 20)
+    alone20 = [_b(fn(long[k])[0]) for k in range(long.n_frames)]
+    for label, order in (("all-20-frames", list(range(20))), ("reversed", list(range(19, -1, -1))),
+                         ("rotated-by-7", [(k + 7) % 20 for k in range(20)])):
+        n += 1
+        res = fn(long[order])
+        bad = [i for i in range(len(order)) if len(res) != len(order) or _b(res[i]) != alone20[order[i]]]
+        if bad:
+            viol.append(("history|%s|frame-depends-on-other-frames-of-a-long-trajectory" % name,
+                         "%s: frame %d inside the 20-frame trajectory (%s) differs from the frame computed alone"
+                         % (name, order[bad[0]], label), {"layer": "a", "fn": name, "seq": label}))
+        else:
+            nontrivial += 1
     distinct_alone = len(set(alone.values()))
     return viol, n, nontrivial, distinct_alone
 
@@ -365,7 +381,7 @@ def run(ctx):
 def replay(ctx, rep):
     if rep["layer"] == "a":
         v = history_job((rep["fn"], ctx.repo))[0]
-        hit = [x for x in v if x[2]["seq"] == rep["seq"]]
+        hit = [x for x in v if x[2]["seq"] == rep["seq"]] or ([x for x in v] if isinstance(rep["seq"], str) else [])
         v2 = history_job((rep["fn"], ctx.repo))[0]
         assert bool(v) == bool(v2), "not deterministic"
         print("replay:", [x[1] for x in hit][:1])
